@@ -158,6 +158,8 @@ def run(run, ix, tier):
     run.rule('D-R4', floor=5, desc='matrix mutators drop the cached LU')
     run.rule('D-R3', floor=2, desc='no cross-context storage')
     run.rule('D-R6', floor=1, desc='memoize key completeness')
+    run.rule('D-R7', floor=10, desc='only complete values are stored in a cache (no store inside its accumulation loop)')
+    run.rule('D-R8', floor=1, desc='the cache that gates a multi-part lookup is replaced last')
     run.rule('D-R1f', floor=4, desc='values stored in a precision-keyed cache are computed at the key\'s precision')
 
     rows = table_index(ix)
@@ -195,12 +197,101 @@ def run(run, ix, tier):
     check_memoize_key(run, ix)
     check_rs(run, ix)
     check_keyed_store_precision(run, ix)
+    check_partial_stores(run, ix)
+    check_gate_last(run, ix)
     # the odefun segment cache (append-only lists, in-range lookup, extension test): rules of the
     # C34 module, reported here as D-ODE
     from ..report import SubRun
     from . import c34
     run.rule('D-ODE', floor=5, desc='odefun segment cache: append-only, lookup index in range, extension test')
     c34.run(SubRun(run, keep=('O-R2', 'O-R3', 'O-R4'), rename=lambda r: 'D-ODE'), ix, tier)
+
+
+# ---------------------------------------------------------------------------
+def _innermost_loop(node, stop):
+    p = getattr(node, '_parent', None)
+    while p is not None and p is not stop:
+        if isinstance(p, (ast.For, ast.While)):
+            return p
+        p = getattr(p, '_parent', None)
+    return None
+
+
+def check_partial_stores(run, ix):
+    """D-R7.  A value may be written into a cache only when it is complete.  A store that sits in the same
+    loop as the accumulation of the value it stores (`suma += ...; cache[n] = f(suma)`) publishes partial
+    sums; an exception or interrupt inside that loop leaves a wrong number in the cache for ever
+    (eulernum(14) returned -86908696 after an interrupted call)."""
+    n = 0
+    for row in tables.CACHES:
+        if row['kind'] not in ('exact', 'tagged', 'keyed', 'purekey') or not row.get('func'):
+            continue
+        f = ix.find_func(row['file'], row['func'])
+        if f is None:
+            continue
+        for cont in row['container'].split(','):
+            acc = CacheAccesses(f, cont.strip())
+            for st, sub in acc.stores:
+                n += 1
+                lp = _innermost_loop(st, f.node)
+                names = {x.id for x in ast.walk(st.value) if isinstance(x, ast.Name)} if hasattr(st, 'value') else set()
+                partial = None
+                # a running value stored under a key that advances with it (memo[k] = p after p *= k; k += 1) is
+                # complete for that key; the defect is the SAME key being overwritten while the value grows
+                keynames = {x.id for x in ast.walk(sub.slice) if isinstance(x, ast.Name)} if hasattr(sub, 'slice') else set()
+                key_moves = lp is not None and any(
+                    (isinstance(y, ast.AugAssign) and isinstance(y.target, ast.Name) and y.target.id in keynames) or
+                    (isinstance(y, ast.Assign) and any(isinstance(t, ast.Name) and t.id in keynames for t in y.targets)) or
+                    (isinstance(y, (ast.For,)) and y is lp and any(isinstance(t, ast.Name) and t.id in keynames
+                                                                   for t in ast.walk(y.target)))
+                    for y in ast.walk(lp) if _innermost_loop(y, f.node) is lp or y is lp)
+                if lp is not None and not key_moves:
+                    for y in ast.walk(lp):
+                        if isinstance(y, ast.AugAssign) and isinstance(y.target, ast.Name) and y.target.id in names \
+                                and _innermost_loop(y, f.node) is lp:
+                            partial = y
+                if partial is not None:
+                    run.fail(Finding('D-R7', row['file'], f.qualname, norm(st),
+                                     'the value is written into the cache inside the loop that is still accumulating '
+                                     'it (`%s`): an exception or interrupt in that loop leaves a partial result in '
+                                     'the cache, which every later call returns' % norm(partial), line=st.lineno))
+                else:
+                    run.ok('D-R7', '%s: %s stored complete' % (f.qualname, cont.strip()) if n < 8 else None)
+    if n < 10:
+        raise AnalysisError('D-R7: only %d cache stores examined' % n)
+
+
+def check_gate_last(run, ix):
+    """D-R8.  primesieve keeps three module-level lists and decides from the length of ONE of them whether all
+    three can serve a request.  When they are replaced, that gate must be replaced LAST: an interrupt after the
+    gate but before the others leaves a long gate list with short companions, and every later lookup fails
+    (`ValueError: 19 is not in list` from zeta)."""
+    rel = 'mpmath/libmp/gammazeta.py'
+    f = ix.func(rel, 'primesieve')
+    glob = [n for x in _walk_own(f.node) if isinstance(x, ast.Global) for n in x.names]
+    if len(glob) < 2:
+        raise AnalysisError('primesieve: module caches not found')
+    gate = None
+    for st in f.node.body:
+        if isinstance(st, ast.If):
+            used = [n.id for n in ast.walk(st.test) if isinstance(n, ast.Name) and n.id in glob]
+            if used:
+                gate = used[0]
+                break
+    if gate is None:
+        raise AnalysisError('primesieve: lookup gate not found')
+    stores = sorted([x for x in _walk_own(f.node) if isinstance(x, ast.Assign) and isinstance(x.targets[0], ast.Name)
+                     and x.targets[0].id in glob], key=lambda x: x.lineno)
+    if not stores:
+        raise AnalysisError('primesieve: cache stores not found')
+    if stores[-1].targets[0].id == gate and [x.targets[0].id for x in stores].count(gate) == 1:
+        run.ok('D-R8', 'primesieve: %s (the gate) is replaced after %s' % (gate, [x.targets[0].id for x in stores[:-1]]))
+    else:
+        g = [x for x in stores if x.targets[0].id == gate][0]
+        run.fail(Finding('D-R8', rel, f.qualname, norm(g),
+                         '`%s` decides whether the cached lists can serve a request, but it is replaced before %s: an '
+                         'interrupt in between leaves it ahead of its companions and later lookups fail'
+                         % (gate, [x.targets[0].id for x in stores if x.lineno > g.lineno]), line=g.lineno))
 
 
 # ---------------------------------------------------------------------------
@@ -527,6 +618,7 @@ def check_constant_memo(run, ix):
     # (1) every return of memo_val that is not freshly computed is gated
     stores = [x for x in _walk_own(g.node) if isinstance(x, ast.Assign) and
               isinstance(x.targets[0], ast.Attribute) and x.targets[0].attr in (tag_attr, val_attr)]
+    stores.sort(key=lambda st: st.lineno)
     val_store = [s for s in stores if s.targets[0].attr == val_attr]
     tag_store = [s for s in stores if s.targets[0].attr == tag_attr]
     for r in [x for x in _walk_own(g.node) if isinstance(x, ast.Return)]:
@@ -567,39 +659,88 @@ def check_constant_memo(run, ix):
             run.fail(Finding('D-R2', rel, g.qualname, norm(r),
                              'memoised fixed-point value is not shifted by exactly (stored - '
                              'requested) bits', line=r.lineno))
-    # (2) store order: compute -> value -> tag, adjacent, tag store cannot raise
-    if len(val_store) != 1 or len(tag_store) != 1:
-        run.fail(Finding('D-R2', rel, g.qualname, 'stores of memo_val/memo_prec',
-                         'expected exactly one store of each', line=g.lineno))
+    # (2) torn-update safety of the (tag, value) pair
+    why = torn_update_problem(g.node, val_attr, tag_attr, invalid=(-1,))
+    if why:
+        run.fail(Finding('D-R2', rel, g.qualname, 'stores of %s/%s' % (val_attr, tag_attr), why, line=g.lineno))
         return
-    vs, ts = val_store[0], tag_store[0]
-    blk = getattr(vs, '_parent', None)
+    run.ok('D-R2', 'tag invalidated, value stored, tag validated (or one atomic store)')
+    # the value must be computed at exactly the precision recorded in the (last) tag store
+    ts = tag_store[-1]
+    vs = val_store[-1]
+    src = vs.value
+    if isinstance(src, ast.Name):
+        defs = [x for x in _walk_own(g.node) if isinstance(x, ast.Assign) and norm(x.targets[0]) == src.id]
+        src = defs[-1].value if defs else src
+    calls = [n for n in ast.walk(src) if isinstance(n, ast.Call) and norm(n.func) == fname]
+    if not calls or not calls[0].args or norm(calls[0].args[0]) != norm(ts.value):
+        run.fail(Finding('D-R2', rel, g.qualname, norm(ts), 'value is not computed at the precision recorded as its tag',
+                         line=ts.lineno))
+    else:
+        run.ok('D-R2', 'value computed at the precision recorded in its tag')
+    # fresh path: the freshly computed value is shifted by (new precision - requested)
+    for r in [x for x in _walk_own(g.node) if isinstance(x, ast.Return)]:
+        if isinstance(vs.value, ast.Name) and any(isinstance(n, ast.Name) and n.id == vs.value.id for n in ast.walk(r)):
+            shift = [n for n in ast.walk(r) if isinstance(n, ast.BinOp) and isinstance(n.op, ast.RShift)]
+            ok = shift and isinstance(shift[0].right, ast.BinOp) and isinstance(shift[0].right.op, ast.Sub) and \
+                norm(shift[0].right.left) == norm(ts.value) and is_req(shift[0].right.right)
+            if ok:
+                run.ok('D-R2', 'fresh path returns value >> (newprec - prec)')
+            else:
+                run.fail(Finding('D-R2', rel, g.qualname, norm(r), 'freshly computed constant is not shifted by '
+                                 '(computed precision - requested precision)', line=r.lineno))
+
+
+def torn_update_problem(fnode, val_attr, tag_attr, invalid):
+    """A cache entry is a (precision tag, value) pair kept in two attributes.  An exception (KeyboardInterrupt,
+    a timeout signal) can arrive between any two statements, so the update must be safe at every cut:
+    either ONE store of a tuple, or   tag := invalid ; value := new ; tag := valid   as consecutive statements
+    (cut after 1: entry unusable, recomputed; cut after 2: same).  `value; tag` leaves the new value under the
+    old tag (pi * 2^365 was served after an interrupted upgrade of pi), `tag; value` the old value under the new
+    tag.  Returns a reason, or None."""
+    stores = [x for x in _walk_own(fnode) if isinstance(x, ast.Assign) and len(x.targets) == 1 and
+              isinstance(x.targets[0], ast.Attribute) and x.targets[0].attr in (val_attr, tag_attr)]
+    vals = [x for x in stores if x.targets[0].attr == val_attr]
+    tags = [x for x in stores if x.targets[0].attr == tag_attr]
+    if len(vals) != 1:
+        return 'expected exactly one store of the value, found %d' % len(vals)
+    vs = vals[0]
+    blk = vs._parent
     body = None
-    for field in ('body', 'orelse'):
+    for field in ('body', 'orelse', 'finalbody'):
         b = getattr(blk, field, None)
         if isinstance(b, list) and vs in b:
             body = b
-    problems = []
-    if body is None or ts not in body:
-        problems.append('value and tag are stored in different blocks')
-    else:
-        iv, it = body.index(vs), body.index(ts)
-        if it < iv:
-            problems.append('the precision tag is stored BEFORE the value is computed: if the '
-                            'computation raises, the old low-precision value stays with the new '
-                            'high tag and is served at the wrong scale')
-        elif it != iv + 1:
-            problems.append('statements between the value store and the tag store')
-    if any(isinstance(n, ast.Call) for n in ast.walk(ts.value)):
-        problems.append('tag store evaluates a call (may raise after the value was replaced)')
-    # the value must be computed at exactly the precision recorded in the tag
-    calls = [n for n in ast.walk(vs.value) if isinstance(n, ast.Call) and norm(n.func) == fname]
-    if not calls or not calls[0].args or norm(calls[0].args[0]) != norm(ts.value):
-        problems.append('value is not computed at the precision recorded as its tag')
-    if problems:
-        run.fail(Finding('D-R2', rel, g.qualname, norm(ts), '; '.join(problems), line=ts.lineno))
-    else:
-        run.ok('D-R2', 'f.memo_val = f(newprec) immediately followed by f.memo_prec = newprec')
+    if body is None:
+        return 'value store not found in a statement list'
+    i = body.index(vs)
+    before = body[i - 1] if i > 0 else None
+    after = body[i + 1] if i + 1 < len(body) else None
+
+    def is_tag_store(st):
+        return st in tags
+
+    if not (before is not None and is_tag_store(before) and isinstance(before.value, (ast.Constant, ast.UnaryOp)) and
+            _const_value(before.value) in invalid):
+        return ('the value is stored while the old precision tag is still in force: an interrupt right after it '
+                'leaves the NEW value under the OLD tag (it is then served at the wrong scale / as if it had the '
+                'old accuracy); the tag must be invalidated (%s) in the statement before' % (invalid,))
+    if not (after is not None and is_tag_store(after)):
+        return 'the value store is not immediately followed by the store of its precision tag'
+    if any(isinstance(n, ast.Call) for n in ast.walk(after.value)) and not isinstance(after.value, ast.Attribute):
+        if not (isinstance(after.value, ast.Attribute)):
+            return 'the validating tag store evaluates a call'
+    if len(tags) != 2:
+        return 'expected the two tag stores of the protocol, found %d' % len(tags)
+    return None
+
+
+def _const_value(e):
+    if isinstance(e, ast.Constant):
+        return e.value
+    if isinstance(e, ast.UnaryOp) and isinstance(e.op, ast.USub) and isinstance(e.operand, ast.Constant):
+        return -e.operand.value
+    return None
 
 
 # ---------------------------------------------------------------------------
@@ -642,6 +783,11 @@ def check_lu(run, ix):
                      is_req(x.value) for x in sib)
         if tagged:
             run.ok('D-LU', 'store of _LU records the precision')
+            why = torn_update_problem(f.node, '_LU', '_LU_prec', invalid=(0,))
+            if why:
+                run.fail(Finding('D-LU', rel, f.qualname, norm(st), why, line=st.lineno))
+            else:
+                run.ok('D-LU', 'tag invalidated, factors stored, tag validated')
         else:
             run.fail(Finding('D-LU', rel, f.qualname, norm(st),
                              'LU factors are cached without recording the precision', line=st.lineno))
